@@ -448,3 +448,17 @@ Definition compile (e : entity) : outcome (list component) :=
              else Err "type not found"
   | o => o
   end.
+
+(* a source file with several entity declarations of one package: each entity is expanded in
+   turn into the same three files; any error fails the file *)
+Fixpoint compile_all (es : list entity) : outcome (list component) :=
+  match es with
+  | [] => Ok []
+  | e :: r =>
+      match compile e with
+      | Ok a => match compile_all r with Ok b => Ok (a ++ b) | o => o end
+      | Err c => Err c
+      | Panic p => Panic p
+      | OutOfFuel => OutOfFuel
+      end
+  end.
